@@ -16,12 +16,14 @@
 (***************************************************************************)
 EXTENDS ShearSolver, Bags, SequencesExt, TLC, Json, IOUtils
 
-Scenario == IOEnv.SCENARIO      \* "generic" | "uniaxial" (e1 = e2) | "isotropic"
+Scenario == IOEnv.SCENARIO      \* "generic" | "uniaxial" (e1 = e2) | "uniaxial23" (e2 = e3) | "uniaxial13" (e1 = e3) | "isotropic"
 
 
 \* ------------------------------------------------------------------ strain values
 Collapse(c) == CASE Scenario = "generic"   -> c
                  [] Scenario = "uniaxial"  -> << FAdd(c[1], c[2]), F0, c[3] >>
+                 [] Scenario = "uniaxial23" -> << c[1], FAdd(c[2], c[3]), F0 >>
+                 [] Scenario = "uniaxial13" -> << FAdd(c[1], c[3]), c[2], F0 >>
                  [] Scenario = "isotropic" -> << FAdd(FAdd(c[1], c[2]), c[3]), F0, F0 >>
 Irr(c) == \E i \in I3 : c[i][2] # R0
 MkVal(dd, c) == LET cc == Collapse(c) IN [d |-> IF Irr(cc) THEN dd ELSE 0, c |-> cc]
@@ -103,7 +105,7 @@ ShearRow(K) == [task |-> Root(K), key |-> K, disc |-> Disc(K),
          deps |-> {[dep |-> x, n |-> ShearDepTable[K][x]] : x \in DOMAIN ShearDepTable[K]},
          rot |-> {[dep |-> r.dep, ab |-> r.ab, coef |-> Fld(r.coef)] : r \in TargetTerms(K).rot},
          own |-> {[dep |-> o.dep, key |-> o.key, coef |-> Fld(o.coef)] : o \in TargetTerms(K).own}]
-ASSUME Scenario \in {"generic", "uniaxial", "isotropic"}
+ASSUME Scenario \in {"generic", "uniaxial", "uniaxial23", "uniaxial13", "isotropic"}
 ASSUME Scenario = "isotropic" => IsotropicLimit
 ASSUME JsonSerialize(IOEnv.OUTD \o "/sched_" \o Scenario \o ".json",
    [ scenario |-> Scenario,
